@@ -123,6 +123,12 @@ impl ChunkSerializer {
             iteration = iteration + 1;
         }
 
+        if slices.is_empty() {
+            // A message without a payload still has to be announced to the peer, so it is
+            // sent as a single chunk that consists of the header only.
+            slices.push(&message.data[0..0]);
+        }
+
         for (idx, slice) in slices.into_iter().enumerate() {
             self.add_chunk(
                 &mut bytes,
